@@ -16,6 +16,7 @@ import (
 	"strconv"
 	"time"
 
+	"github.com/nspcc-dev/bbolt"
 	clientcore "github.com/nspcc-dev/neofs-node/pkg/core/client"
 	"github.com/nspcc-dev/neofs-node/pkg/local_object_storage/blobstor/fstree"
 	"github.com/nspcc-dev/neofs-node/pkg/local_object_storage/engine"
@@ -38,7 +39,6 @@ import (
 	sessionv2 "github.com/nspcc-dev/neofs-sdk-go/session/v2"
 	"github.com/nspcc-dev/neofs-sdk-go/user"
 	"github.com/nspcc-dev/neofs-sdk-go/version"
-	"github.com/nspcc-dev/bbolt"
 	"go.uber.org/zap"
 	"verifharness/internal/kit"
 )
@@ -76,12 +76,12 @@ func (epochOne) CurrentEpoch() uint64 { return 1 }
 
 type paid struct{}
 
-func (paid) PaymentsDisabled() bool              { return true }
+func (paid) PaymentsDisabled() bool            { return true }
 func (paid) UnpaidSince(cid.ID) (int64, error) { return -1, nil }
 
 type noSessions struct{}
 
-func (noSessions) GetToken(user.ID) *nodesession.PrivateToken                      { return nil }
+func (noSessions) GetToken(user.ID) *nodesession.PrivateToken                       { return nil }
 func (noSessions) FindTokenBySubjects([]sessionv2.Target) *nodesession.PrivateToken { return nil }
 
 type fakeNet struct {
